@@ -454,11 +454,12 @@ class DataclassSerializer:
 
         # For dataclasses, track and use cattrs
         if dataclasses.is_dataclass(obj) and not isinstance(obj, type):
+            # Let cattrs do the heavy lifting (respects custom hooks, field mappings, etc.); it tracks the
+            # objects it walks through in the same visited set
+            result = unstructure_to_dict(obj, visited)
+
             visited.add(obj_id)
             try:
-                # Let cattrs do the heavy lifting (respects custom hooks, field mappings, etc.)
-                result = unstructure_to_dict(obj)
-
                 # Post-process to ensure nested dataclasses are fully converted
                 result = DataclassSerializer._ensure_all_dicts(result, visited)
 
@@ -468,7 +469,7 @@ class DataclassSerializer:
                 visited.remove(obj_id)
 
         # For everything else (dicts, primitives, etc.), let cattrs handle it
-        result = unstructure_to_dict(obj)
+        result = unstructure_to_dict(obj, visited)
         return DataclassSerializer._remove_none_values(result)
 
     @staticmethod
